@@ -202,6 +202,15 @@ def rule_role(repo, tier):
             roles[(name, left)] = (role, tgt[0].name if tgt else None, callx.args[0] if callx.args else None)
             res.inst({'function': f.fq, 'left': left, 'role': role, 'delegates_to': tgt[0].name if tgt else None})
             if role is None:
+                # a product of the two operands wrapped in something else: the partial products are post-processed between the passes
+                if isinstance(opsarg, ast.Lambda) and isinstance(opsarg.body, ast.Call) and any(
+                        isinstance(x, ast.BinOp) and isinstance(x.op, (ast.Mult, ast.MatMult)) and {dotted(x.left), dotted(x.right)} == {a.arg for a in opsarg.args.args}
+                        for a_ in list(opsarg.body.args) + [opsarg.body.func.value if isinstance(opsarg.body.func, ast.Attribute) else None] if a_ is not None for x in ast.walk(a_)):
+                    res.add(Finding('C12.ROLE', f, 'the operation %s(left=%s) hands to the scan is `%s`: every partial product is post-processed (`%s`) before it is combined '
+                                    'again, so position i no longer holds exactly x_i o ... o x_1 - whatever the wrapper does to an item (re-normalise, round, clamp) is '
+                                    'applied log2(L) times and to layouts it may not fit' % (name, left, src(opsarg)[:50], src(opsarg.body.func)[:30]), node=callx,
+                                    construct='scan operation wrapped|%s|%s' % (name, left)))
+                    continue
                 res.unresolved += 1
                 raise AnalysisError('C12.ROLE: cannot read the scan operation of %s(left=%s): %s' % (name, left, src(opsarg)))
             want = (op, 1, 0) if left else (op, 0, 1)
